@@ -123,6 +123,7 @@ def mk_option(it, discr_sv, payload):
 
 def opt_cases(it, v):
     """[(pc, is_some, payload)] for an Option value with concrete or symbolic discriminant"""
+    v = it.lazy_enum(v, "Option")
     d = v.discr.expr
     if re.match(r"^\d+$", d):
         return [([], d == "1", v.variants["Some"].fields["0"] if d == "1" else None)]
@@ -132,22 +133,46 @@ def opt_cases(it, v):
     return out
 
 
+def _same_env(a, b):
+    """no local, cell or event of the caller changed (identity of the stored values)"""
+    if set(a) != set(b):
+        return False
+    for k in a:
+        if k == "__events":
+            if len(a[k]) != len(b[k]):
+                return False
+        elif a[k] is not b[k]:
+            return False
+    return True
+
+
 def m_option_map(it, args, callee):
     opt, clo = args
+    opt = it.lazy_enum(opt, "Option")
     if not isinstance(opt, Enum):
         raise Unsupported("Option::map on %r" % opt)
     res = []
+    if getattr(it, "lenient", False) and isinstance(clo, Agg) and clo.ty.startswith("{closure@") and "Some" in opt.variants \
+            and not re.match(r"^\d+$", opt.discr.expr):
+        # a closure that runs on a single path without touching the caller's state is a plain function of the payload: keep
+        # ONE symbolic Option (same discriminant) instead of forking the caller on Some / None
+        env0 = it.cur_env
+        runs = it.run_closure_seq(clo, [opt.variants["Some"].fields["0"]])
+        it.cur_env = env0
+        if len(runs) == 1 and not runs[0][0] and runs[0][2][0][0] == "return" and _same_env(env0, runs[0][1]):
+            return Enum("Option", opt.discr, {"None": Agg("Option::None", {}), "Some": Agg("Option::Some", {"0": runs[0][2][0][1]})}, ["None", "Some"])
     for pc, is_some, payload in opt_cases(it, opt):
         if not is_some:
             res.append((pc, it._mk_enum("Option", "None", []), "return", None))
             continue
         if isinstance(clo, Agg) and clo.ty.startswith("{closure@"):
-            f = it.closure_fn(clo)
-            for (pc2, val, kind, msg) in it.call_fn(f, [clo, payload]):
+            # value-result for captured `&mut` references (e.g. a closure that calls `self.method()`), events kept
+            for pc2, env2, acc in it.run_closure_seq(clo, [payload]):
+                kind, val = acc[0]
                 if kind == "panic":
-                    res.append((pc + pc2, None, "panic", msg))
+                    res.append((pc + pc2, None, "panic", val))
                 else:
-                    res.append((pc + pc2, it._mk_enum("Option", "Some", [val]), "return", None))
+                    res.append((pc + pc2, it._mk_enum("Option", "Some", [val]), "return", None, {"env": env2}))
         elif isinstance(clo, Opaque) and clo.what.startswith("fnitem:"):
             f = it.fn_item(clo.what[len("fnitem:"):])
             for (pc2, val, kind, msg) in it.call_fn(f, [payload]):
@@ -162,15 +187,19 @@ def m_option_map(it, args, callee):
 
 def m_option_and_then(it, args, callee):
     opt, clo = args
+    opt = it.lazy_enum(opt, "Option")
     res = []
     for pc, is_some, payload in opt_cases(it, opt):
         if not is_some:
             res.append((pc, it._mk_enum("Option", "None", []), "return", None))
             continue
         if isinstance(clo, Agg) and clo.ty.startswith("{closure@"):
-            f = it.closure_fn(clo)
-            for (pc2, val, kind, msg) in it.call_fn(f, [clo, payload]):
-                res.append((pc + pc2, val, kind, msg))
+            for pc2, env2, acc in it.run_closure_seq(clo, [payload]):
+                kind, val = acc[0]
+                if kind == "panic":
+                    res.append((pc + pc2, None, "panic", val))
+                else:
+                    res.append((pc + pc2, val, "return", None, {"env": env2}))
         else:
             raise Unsupported("Option::and_then with callee %r" % clo)
     return res
@@ -208,7 +237,8 @@ def m_option_unwrap_or(it, args, callee):
 
 
 def m_option_is_some(it, args, callee):
-    d = args[0].discr.expr
+    a0 = it.deref(args[0], it.cur_env) if not isinstance(args[0], (Enum, Opaque)) else args[0]
+    d = it.lazy_enum(a0, "Option").discr.expr
     if re.match(r"^\d+$", d):
         return SV("bool", "true" if d == "1" else "false")
     return SV("bool", "(= %s 1)" % d)
@@ -219,30 +249,36 @@ def m_option_copied(it, args, callee):
 
 
 def m_value_is_text(it, args, callee):
-    v = args[0]
-    idx = [n for n, _ in it.decls.enums["Value"]].index("Text")
+    v = args[0] if isinstance(args[0], (Enum, Opaque)) else it.deref(args[0], it.cur_env)
+    v = it.lazy_enum(v, "Value", "quantity")
+    idx = [n for n, _ in it.decls.enums.lookup("Value", "quantity")].index("Text")
     d = v.discr.expr
     if re.match(r"^\d+$", d):
         return SV("bool", "true" if int(d) == idx else "false")
     return SV("bool", "(= %s %d)" % (d, idx))
 
 
+class _NoFn:
+    name = "<model>"
+
+
 def located_inner(it, args, callee):
     order = it.decls.structs["Located"]
-    return args[0].fields[str(order.index("inner"))]
+    base = args[0] if isinstance(args[0], (Agg, Opaque)) else it.deref(args[0], it.cur_env)
+    return it._field(_NoFn, base, str(order.index("inner")))
 
 
 MORE_MODELS = {
-    r"^std::option::Option::<.*>::map::<": m_option_map,
-    r"^std::option::Option::<.*>::unzip$": m_option_unzip,
-    r"^std::option::Option::<.*>::and_then::<": m_option_and_then,
+    r"^(?:std::option::)?Option::<.*>::map::<": m_option_map,
+    r"^(?:std::option::)?Option::<.*>::unzip$": m_option_unzip,
+    r"^(?:std::option::)?Option::<.*>::and_then::<": m_option_and_then,
     r"^core::slice::<impl \[.*\]>::first$": m_slice_first,
     r"^core::slice::<impl \[.*\]>::last$": m_slice_last,
     r"^<Vec<.*> as Deref>::deref$": m_identity,
     r"^Vec::<.*>::as_slice$": m_identity,
-    r"^std::option::Option::<.*>::unwrap_or$": m_option_unwrap_or,
-    r"^std::option::Option::<.*>::is_some$": m_option_is_some,
-    r"^std::option::Option::<.*>::copied$": m_option_copied,
+    r"^(?:std::option::)?Option::<.*>::unwrap_or$": m_option_unwrap_or,
+    r"^(?:std::option::)?Option::<.*>::is_some$": m_option_is_some,
+    r"^(?:std::option::)?Option::<.*>::copied$": m_option_copied,
     r"^<quantity::Value as Clone>::clone$": m_identity,
     r"^<quantity::Value as quantity::QuantityValue>::is_text$": m_value_is_text,
     r"^<Located<quantity::Value> as Deref>::deref$": located_inner,
@@ -353,6 +389,10 @@ def _int_range(sort):
 def _m_checked(op):
     def model(it, args, callee):
         a, b = args
+        if not (isinstance(a, SV) and isinstance(b, SV)):
+            if getattr(it, "lenient", False):
+                return it.uf_call(callee, args)
+            raise Unsupported("%s on %r" % (callee, args))
         lo, hi = _int_range(a.sort)
         raw = it.sem.define("Int", "(%s %s %s)" % (op, a.expr, b.expr), "ck")
         ok = "(and (<= %s %s) (<= %s %s))" % (lo if lo >= 0 else "(- %d)" % -lo, raw, raw, hi)
@@ -363,6 +403,10 @@ def _m_checked(op):
 def _m_saturating(op):
     def model(it, args, callee):
         a, b = args
+        if not (isinstance(a, SV) and isinstance(b, SV)):
+            if getattr(it, "lenient", False):
+                return it.uf_call(callee, args)
+            raise Unsupported("%s on %r" % (callee, args))
         lo, hi = _int_range(a.sort)
         raw = "(%s %s %s)" % (op, a.expr, b.expr)
         los = str(lo) if lo >= 0 else "(- %d)" % -lo
@@ -373,6 +417,10 @@ def _m_saturating(op):
 def _m_wrapping(op):
     def model(it, args, callee):
         a, b = args
+        if not (isinstance(a, SV) and isinstance(b, SV)):
+            if getattr(it, "lenient", False):
+                return it.uf_call(callee, args)
+            raise Unsupported("%s on %r" % (callee, args))
         return SV(a.sort, it.sem.int_arith({"+": "Add", "-": "Sub", "*": "Mul"}[op], a.expr, b.expr, a.sort))
     return model
 
@@ -549,11 +597,11 @@ def m_option_or_else(it, args, callee):
 
 
 MORE_MODELS.update({
-    r"^std::option::Option::<.*>::or_else::<": m_option_or_else,
+    r"^(?:std::option::)?Option::<.*>::or_else::<": m_option_or_else,
     r"^core::bool::<impl bool>::then_some::<": m_then_some,
     r"^Result::<.*>::ok$": m_result_ok,
-    r"^std::option::Option::<.*>::ok_or::<": m_option_ok_or,
-    r"^std::option::Option::<.*>::and_then::<": m_option_and_then2,
+    r"^(?:std::option::)?Option::<.*>::ok_or::<": m_option_ok_or,
+    r"^(?:std::option::)?Option::<.*>::and_then::<": m_option_and_then2,
 })
 
 
@@ -719,3 +767,193 @@ def m_round_ties_even(it, args, callee):
 
 
 STD_MODELS[r"f64::<impl f64>::round_ties_even$"] = m_round_ties_even
+
+
+VEC_MODELS.update({
+    r"^Vec::<.*>::new$": lambda it, a, c: VecVal([]),
+    r"^<Vec<.*> as Default>::default$": lambda it, a, c: VecVal([]),
+})
+
+
+# ----------------------------------------------------------------------------------------------
+# generic Option methods (receiver may be abstract in lenient mode: `it._call` materialises it first)
+
+def _recv(it, a):
+    return a if isinstance(a, (Enum, Opaque, Agg, SV)) else it.deref(a, it.cur_env)
+
+
+def m_option_unwrap(it, args, callee):
+    opt = it.lazy_enum(_recv(it, args[0]), "Option")
+    what = "called `Option::%s()` on a `None` value" % ("expect" if "expect" in callee else "unwrap")
+    return [(pc, payload, "return", None) if is_some else (pc, None, "panic", what) for pc, is_some, payload in opt_cases(it, opt)]
+
+
+def m_option_is_none(it, args, callee):
+    d = it.lazy_enum(_recv(it, args[0]), "Option").discr.expr
+    return SV("bool", ("true" if d == "0" else "false") if re.match(r"^\d+$", d) else "(= %s 0)" % d)
+
+
+def m_option_as_ref(it, args, callee):
+    return _recv(it, args[0])
+
+
+def m_option_zip(it, args, callee):
+    a, b = it.lazy_enum(_recv(it, args[0]), "Option"), it.lazy_enum(_recv(it, args[1]), "Option")
+    res = []
+    for pc1, s1, p1 in opt_cases(it, a):
+        for pc2, s2, p2 in opt_cases(it, b):
+            if s1 and s2:
+                res.append((pc1 + pc2, it._mk_enum("Option", "Some", [Agg("tuple", {"0": p1, "1": p2})]), "return", None))
+            else:
+                res.append((pc1 + pc2, it._mk_enum("Option", "None", []), "return", None))
+    return res
+
+
+MORE_MODELS.update({
+    r"^(?:std::option::)?Option::<.*>::(unwrap|expect)$": m_option_unwrap,
+    r"^(?:std::option::)?Option::<.*>::is_none$": m_option_is_none,
+    r"^(?:std::option::)?Option::<.*>::(as_ref|as_deref)$": m_option_as_ref,
+    r"^(?:std::option::)?Option::<.*>::zip::<": m_option_zip,
+})
+
+
+def m_box_new_uninit(it, args, callee):
+    from mir import BoxCell
+    return BoxCell()
+
+
+def m_box_into_vec(it, args, callee):
+    from mir import BoxCell
+    b = args[0]
+    if not isinstance(b, BoxCell) or b.content is None:
+        raise Unsupported("box_assume_init_into_vec on %r" % (b,))
+    c = b.content
+    return VecVal(list(c.items)) if isinstance(c, VecVal) else VecVal([c.fields[k] for k in sorted(c.fields, key=int)])
+
+
+VEC_MODELS.update({
+    r"^Box::<\[.*\]>::new_uninit$": m_box_new_uninit,
+    r"^std::boxed::box_assume_init_into_vec_unsafe::<": m_box_into_vec,
+})
+
+
+def m_iter_rposition(it, args, callee):
+    """`iter.rposition(pred)`: index of the LAST element satisfying the predicate"""
+    src = it.deref(args[0], it.cur_env) if not isinstance(args[0], (IterVal, VecVal)) else args[0]
+    items = src.items[src.pos:] if isinstance(src, IterVal) else src.items
+    rev = list(reversed(list(enumerate(items))))
+    out = []
+    for pc, env, acc in it.run_closure_seq(args[1], [x for _, x in rev]):
+        if any(k == "panic" for k, _ in acc):
+            out.append((pc, None, "panic", [v for k, v in acc if k == "panic"][0]))
+            continue
+        misses = []
+        for (idx, _), (_, r) in zip(rev, acc):
+            b = r.expr if isinstance(r, SV) else it.lazy_scalar(r, "bool").expr
+            out.append((pc + misses + [b], it._mk_enum("Option", "Some", [SV("usize", str(idx))]), "return", None, {"env": env}))
+            misses = misses + ["(not %s)" % b]
+        out.append((pc + misses, it._mk_enum("Option", "None", []), "return", None, {"env": env}))
+    return out
+
+
+def m_once_cell_get_or_init(it, args, callee):
+    """`OnceCell::get_or_init(f)`: the initialiser is a pure function of captured state here, so every call evaluates it
+    (same value each time: the path conditions it produces are shared)"""
+    out = []
+    for pc, env, acc in it.run_closure_seq(args[1], [Opaque("unit")], unpack=True):
+        kind, val = acc[0]
+        if kind == "panic":
+            out.append((pc, None, "panic", val))
+        else:
+            out.append((pc, val, "return", None, {"env": env}))
+    return out
+
+
+CLOSURE_MODELS.update({
+    r"^<std::slice::Iter<'_, .*> as Iterator>::rposition::<": m_iter_rposition,
+    r"^(std::cell::)?OnceCell::<.*>::get_or_init::<": m_once_cell_get_or_init,
+    r"^(std::cell::)?OnceCell::<.*>::new$": m_opaque,
+})
+MORE_MODELS.update(CLOSURE_MODELS)
+
+
+def m_option_as_mut(it, args, callee):
+    from mir import ProjRef
+    opt = it.lazy_enum(it.deref(args[0], it.cur_env), "Option")
+    res = []
+    for pc, is_some, payload in opt_cases(it, opt):
+        if is_some:
+            res.append((pc, it._mk_enum("Option", "Some", [ProjRef(args[0], [("v", "Some"), ("f", "0")])]), "return", None))
+        else:
+            res.append((pc, it._mk_enum("Option", "None", []), "return", None))
+    return res
+
+
+MORE_MODELS[r"^(?:std::option::)?Option::<.*>::as_mut$"] = m_option_as_mut
+
+
+# ----------------------------------------------------------------------------------------------
+# iterator adaptors over sequences of known length (eager: the adaptor is evaluated where it is built)
+
+def _iter_items(it, v):
+    v = it.deref(v, it.cur_env) if not isinstance(v, (IterVal, VecVal)) else v
+    if isinstance(v, IterVal):
+        return list(v.items[v.pos:])
+    if isinstance(v, VecVal):
+        return list(v.items)
+    raise Unsupported("iterator over %r" % (v,))
+
+
+def m_iter_once(it, args, callee):
+    return IterVal([args[0]])
+
+
+def m_iter_same(it, args, callee):
+    return IterVal(_iter_items(it, args[0]))
+
+
+def m_iter_chain(it, args, callee):
+    return IterVal(_iter_items(it, args[0]) + _iter_items(it, args[1]))
+
+
+def m_iter_filter_map(it, args, callee):
+    items = _iter_items(it, args[0])
+    out = []
+    for pc, env, acc in it.run_closure_seq(args[1], items):
+        if any(k == "panic" for k, _ in acc):
+            out.append((pc, None, "panic", [v for k, v in acc if k == "panic"][0]))
+            continue
+        states = [([], [])]
+        for _, r in acc:
+            nxt = []
+            for cpc, kept in states:
+                for pc2, is_some, payload in opt_cases(it, it.lazy_enum(r, "Option")):
+                    nxt.append((cpc + pc2, kept + ([payload] if is_some else [])))
+            states = nxt
+        for cpc, kept in states:
+            out.append((pc + cpc, IterVal(kept), "return", None, {"env": env}))
+    return out
+
+
+ITER_MODELS.update({
+    r"^(std::iter::)?once::<": m_iter_once,
+    r"^<std::slice::Iter<'_, .*> as Iterator>::(copied|cloned)(::<.*>)?$": m_iter_same,
+    r"^<.* as Iterator>::chain::<": m_iter_chain,
+    r"^<.* as Iterator>::filter_map::<": m_iter_filter_map,
+    r"^<(std::iter::)?(FilterMap|Chain|Once|Copied|Cloned)<.*> as IntoIterator>::into_iter$": m_iter_same,
+    r"^<(std::iter::)?(FilterMap|Chain|Once|Copied|Cloned)<.*> as Iterator>::next$": m_iter_next,
+})
+MORE_MODELS.update(ITER_MODELS)
+
+
+def _m_f64_minmax(op):
+    def model(it, args, callee):
+        a, b = [x if isinstance(x, SV) else it.deref(x, it.cur_env) for x in args]
+        return SV("f64", it.sem.define("Real", "(ite (%s %s %s) %s %s)" % (op, a.expr, b.expr, a.expr, b.expr), "mm"))
+    return model
+
+
+STD_MODELS.update({
+    r"^core::f64::<impl f64>::min$": _m_f64_minmax("<="),
+    r"^core::f64::<impl f64>::max$": _m_f64_minmax(">="),
+})
